@@ -54,6 +54,8 @@ let handle (line : string) : string =
       (match find_prim (prims_of tb) name with
        | None -> "NOPRIM"
        | Some p -> string_of_cl (run_attr p (z_of_string v)))
+  | ["rc"; tb; v] -> string_of_cl (run_rc (tb = "cur") (z_of_string v))
+  | ["rcspec"; v] -> string_of_cl (run_rc_spec (z_of_string v))
   | ["int"; tb; name; v] ->
       (match find_prim (prims_of tb) name with
        | None -> "NOPRIM"
